@@ -185,6 +185,9 @@ def main():
         except AnchorLost as e:
             # a top-level anchor of the rule file no longer resolves: fail closed as a finding, not as a pass
             R.bad("anchor-lost", "anchor no longer resolves: %s" % e)
+        # FINGERPRINT (DESIGN 3.13): every function of the property's anchor files against the reviewed reference (rules/fp/<prop>.json)
+        import fingerprint
+        R.guard("fp", lambda: fingerprint.check(R, F, prop))
     except Exception as e:
         sys.stderr.write(traceback.format_exc())
         print("ERROR machinery failure for %s: %s" % (prop, e))
